@@ -94,8 +94,12 @@ SPECS = {
     'pair': ['k,k2', 'k/cmp,k2/cmp', 'k/cmp/asc,k2/cmp/desc',
              'k/cmp/desc,k2/cmp/asc', 'k/cmp/desc,k2/cmp/desc',
              'k2,k', 'EXPR:k,k2'],
-    'tuple-item': ['', 'sequence-item'],
-    'plain-item': ['', 'sequence-item'],
+    # the elements themselves (2-tuples: their keys) as the sort key, also
+    # with a comparison function / direction and no key name
+    'tuple-item': ['', 'sequence-item', '/cmp', '/cmp/desc', '/cmp/asc',
+                   'EXPR:/cmp/desc'],
+    'plain-item': ['', 'sequence-item', '/cmp', '/cmp/desc', '/cmp/asc',
+                   'EXPR:/cmp/desc'],
     'pairx': ['k,k2', 'k/cmp/desc,k2/cmp/asc', 'k2,k'],
     'pairbool': ['k,k2', 'k/cmp/asc,k2/cmp/desc', 'k2/cmp/desc,k'],
     'nummix': ['k', 'k/cmp', 'k/cmp/desc', 'EXPR:k/cmp'],
@@ -168,7 +172,7 @@ def parse_spec(spec):
     out = []
     for f in spec.split(','):
         p = f.split('/')
-        out.append(({'k': 0, 'k2': 1}[p[0]],
+        out.append(({'k': 0, 'k2': 1, '': 0}[p[0]],
                     len(p) > 1 and p[1] == 'nocase',
                     len(p) > 2 and p[2].lower() == 'desc'))
     return out
@@ -315,6 +319,8 @@ def judge_one(res, ktype, syms, spec, mapping):
                 # identities are the values themselves
                 vals = [DOMAINS[ktype][s] for s in syms]
                 exp = sorted(vals)
+                if fields and fields[0][2]:
+                    exp = exp[::-1]         # /desc
                 if reverse:
                     exp = exp[::-1]
                 if batch:
